@@ -38,14 +38,6 @@ def embed (opts : List Opt) (st : St) (base : Gen.RS) : Gen.RS :=
 theorem rep_embed (opts : List Opt) (st : St) (base : Gen.RS) : Rep opts st (embed opts st base) :=
   ⟨rfl, rfl, rfl, rfl, rfl, rfl, rfl⟩
 
-/-- agreement of a result of the translated `nextChar` with a result of the model's -/
-def AgreeNext (opts : List Opt) (s0 : Gen.RS) : Option (Ctl Gen.RS Bool) → Option (Bool × St) → Prop
-  | none, none => True
-  | some (.ret b s), some (b', st') =>
-    b = b' ∧ Rep opts st' s ∧ s.character = s0.character ∧ s.argument = s0.argument ∧ s.end_ = s0.end_ ∧
-      s.argLen = s0.argLen ∧ s.opt = s0.opt ∧ s.argName = s0.argName
-  | _, _ => False
-
 /-- agreement of a result of the translated `read` (or of a block of it) with a result of the model's -/
 def AgreeRead (opts : List Opt) : Option (Ctl Gen.RS Bool) → Option (Option Res × St) → Prop
   | none, none => True
